@@ -21,7 +21,7 @@ struct NonLocals { _p: u8 }
 struct Opaque { _p: u8 }
 #[verifier::external_body]
 struct InstructionReader { _p: u8 }
-impl InstructionReader { uninterp spec fn chunk_view(&self) -> Ptr<Chunk>; }
+impl InstructionReader { uninterp spec fn chunk_view(&self) -> Ptr<Chunk>; uninterp spec fn ip_view(&self) -> u32; }
 #[verifier::external_body]
 struct KMap { _p: u8 }
 #[verifier::external_body]
@@ -351,7 +351,8 @@ VM_SPECS = r"""
         ensures final(self).same_but_reader(old(self)), final(self).cur_chunk() == old(self).cur_chunk(), r is Some,
     { unimplemented!() }
 
-    uninterp spec fn ip_spec(&self) -> u32;
+    // the instruction pointer: where the NEXT instruction will be read (a function of the reader only)
+    spec fn ip_spec(&self) -> u32 { self.reader.ip_view() }
     #[verifier::external_body]
     fn ip(&self) -> (r: u32) ensures r == self.ip_spec() { unimplemented!() }
     #[verifier::external_body]
@@ -587,6 +588,7 @@ UNIT = Unit(
         old(self).call_stack@.len() > 1 ==> final(self).cur_chunk() == final(self).call_stack@.last().chunk,   // @call_site_chunk_restored
         // a barrier frame hands its value to the native caller, any other frame continues in the caller
         old(self).call_stack@.len() > 1 ==> ((r matches Ok(Some(_))) <==> old(self).call_stack@.last().execution_barrier),   // @barrier_returns_value
+        old(self).call_stack@.len() == 1 ==> (r matches Ok(Some(_))),                                           // @last_frame_returns_value
         old(self).call_stack@.len() > 1 && !old(self).call_stack@.last().execution_barrier ==> final(self).registers@.len() == final(self).min_frame_registers,   // @registers_minimised
         old(self).call_stack@.len() > 1 && old(self).call_stack@.last().execution_barrier ==> final(self).registers@ == old(self).registers@,   // @barrier_keeps_registers
         old(self).call_stack@.len() <= 1 ==> final(self).registers@ == old(self).registers@,                    // @last_frame_keeps_registers
@@ -777,7 +779,7 @@ UNIT = Unit(
         final(self).deadline == old(self).deadline,                                                             // @deadline_never_moves
         final(self).execution_limit == old(self).execution_limit,
 """),
-        Fn(F, "impl KotoVm :: fn execute_instructions", props=("C04", "C07", "C08"),
+        Fn(F, "impl KotoVm :: fn execute_instructions", props=("C04", "C07", "C08", "C12"),
            let_chains=True,
            # the interpreter loop runs as long as the script does: termination is not claimed
            attrs=("verifier::exec_allows_no_decreases_clause",),
@@ -830,6 +832,10 @@ UNIT = Unit(
                 self.call_stack@.len() >= old(self).call_stack@.len(),
                 self.call_stack@[old(self).call_stack@.len() - 1].register_base == old(self).call_stack@.last().register_base,
                 old(self).call_stack@.len() > 0,
+                // C12: `instruction_ip` (what error traces and debug output report) is the position of the
+                // instruction that is about to be read and executed - also for the first instruction after a
+                // call returns into this loop or a generator resumes
+                self.instruction_ip == self.ip_spec(),                                                          // @instruction_ip_names_the_executing_instruction
             ensures false,   // reader_next never yields None (assumed), every exit is a return
 """},
            # C08 (a): the deadline is polled in every iteration before the instruction is executed.
@@ -841,7 +847,7 @@ UNIT = Unit(
                ("self.execution_state = ExecutionState::Inactive;", "proof { lemma_barrier_index(self.call_stack@); }", 1),
                ("self.execution_state = ExecutionState::Inactive;", "proof { lemma_barrier_index(self.call_stack@); }", 3),
                ("let catch_value = catch_value_of(error);", "proof { lemma_barrier_index(self.call_stack@); }\nassert(self.sequence_builders@.len() <= sequence_builder_count && self.string_builders@.len() <= string_builder_count);   // @abandoned_builders_discarded_at_catch"),
-               ("self.instruction_ip = self.ip();", "proof { lemma_barrier_index(self.call_stack@); }", 2),
+               ("self.instruction_ip = self.ip();", "proof { lemma_barrier_index(self.call_stack@); }", -1),
            ],
            ),
 
@@ -1123,6 +1129,9 @@ UNIT = Unit(
         r is Err ==> final(self).sequence_builders@ == old(self).sequence_builders@,
         final(self).string_builders@ == old(self).string_builders@, final(self).call_stack@ == old(self).call_stack@,
         final(self).registers@ == old(self).registers@,
+        // frame bookkeeping untouched
+        final(self).register_base == old(self).register_base && final(self).min_frame_registers == old(self).min_frame_registers
+            && final(self).execution_state == old(self).execution_state && final(self).call_stack@ == old(self).call_stack@ && final(self).registers@.len() == old(self).registers@.len(),   // @frame_bookkeeping_untouched
 """),
         Fn(F, "impl KotoVm :: fn run_sequence_to_list", props=("C05", "C07", "C06"),
            subst=[("runtime_error!(ErrorKind::MissingSequenceBuilder)", "error_missing_builder()", 1),
@@ -1137,6 +1146,9 @@ UNIT = Unit(
         r is Ok ==> final(self).last_written() == (register, list_of(old(self).sequence_builders@.last()@)),   // @list_holds_the_builder_contents
         r is Err ==> final(self).sequence_builders@ == old(self).sequence_builders@,
         final(self).string_builders@ == old(self).string_builders@, final(self).call_stack@ == old(self).call_stack@,
+        // frame bookkeeping untouched
+        final(self).register_base == old(self).register_base && final(self).min_frame_registers == old(self).min_frame_registers
+            && final(self).execution_state == old(self).execution_state && final(self).call_stack@ == old(self).call_stack@ && final(self).registers@.len() == old(self).registers@.len(),   // @frame_bookkeeping_untouched
 """),
         Fn(F, "impl KotoVm :: fn run_sequence_to_tuple", props=("C05", "C07", "C06"),
            subst=[("runtime_error!(ErrorKind::MissingSequenceBuilder)", "error_missing_builder()", 1),
@@ -1149,6 +1161,9 @@ UNIT = Unit(
         r is Ok ==> final(self).last_written() == (register, tuple_of(old(self).sequence_builders@.last()@)),   // @tuple_holds_the_builder_contents
         r is Err ==> final(self).sequence_builders@ == old(self).sequence_builders@,
         final(self).string_builders@ == old(self).string_builders@, final(self).call_stack@ == old(self).call_stack@,
+        // frame bookkeeping untouched
+        final(self).register_base == old(self).register_base && final(self).min_frame_registers == old(self).min_frame_registers
+            && final(self).execution_state == old(self).execution_state && final(self).call_stack@ == old(self).call_stack@ && final(self).registers@.len() == old(self).registers@.len(),   // @frame_bookkeeping_untouched
 """),
         Fn(F, "impl KotoVm :: fn run_string_finish", props=("C05", "C07", "C06"),
            subst=[("runtime_error!(ErrorKind::MissingStringBuilder)", "error_missing_builder()", 1),
@@ -1161,6 +1176,9 @@ UNIT = Unit(
         r is Ok ==> final(self).last_written() == (register, string_of(old(self).string_builders@.last())),   // @string_is_the_builder_contents
         r is Err ==> final(self).string_builders@ == old(self).string_builders@,
         final(self).sequence_builders@ == old(self).sequence_builders@, final(self).call_stack@ == old(self).call_stack@,
+        // frame bookkeeping untouched
+        final(self).register_base == old(self).register_base && final(self).min_frame_registers == old(self).min_frame_registers
+            && final(self).execution_state == old(self).execution_state && final(self).call_stack@ == old(self).call_stack@ && final(self).registers@.len() == old(self).registers@.len(),   // @frame_bookkeeping_untouched
 """),
         Type(F, "enum CallArgs"),
         Fn(F, "impl KotoVm :: fn call_and_run_function", props=("C07", "C04"),
